@@ -30,6 +30,8 @@ var (
 	zzWritten  []interface{}
 	zzReadMode int // 0 ok, 1 error, 2 EOF
 	zzVarID    string
+	// the snapshot input most recently decoded (its Name stays symbolic)
+	zzLastSnapName *SnapshotInput
 )
 
 func zzGetApiContext(r *http.Request) *api.ApiContext { return &api.ApiContext{UrlBuilder: zzURLs{}} }
@@ -48,6 +50,7 @@ func zzRead(a *api.ApiContext, obj interface{}) error {
 	switch in := obj.(type) {
 	case *SnapshotInput:
 		in.Name = zzPick("in.snap", "", "new", "a")
+		zzLastSnapName = in
 	case *RevertInput:
 		in.Name = zzPick("in.snap", "", "a", "zz")
 	case *ResizeInput:
